@@ -2,6 +2,7 @@ SPECIFICATION Spec
 CONSTANT Part = "guess"
 CONSTANT Deviation = "MidIsSum"
 CONSTANT MaxDepth = 3
+CONSTANT Rebounds = FALSE
 CONSTANT Export = FALSE
 INVARIANT C05_GuessInside
 CHECK_DEADLOCK FALSE
